@@ -94,13 +94,16 @@ PercNetOK(e) ==
 (* C11                                                                     *)
 (***************************************************************************)
 NonConst == V(P.nt) \ Constants(P.nt)
+\* free inputs (variables without an update function) have identity dynamics but no function that could
+\* "confirm" a given value: the strict variant never reports them
+Inputs == {tr.net.inp[k] : k \in DOMAIN tr.net.inp}
 RECURSIVE PercNC(_)
 PercNC(sp) ==      \* propagation that never fixes a variable whose update function is a constant
     LET nx == [i \in V(P.nt) |-> IF sp[i] # 2 \/ i \notin NonConst THEN sp[i] ELSE ConstOn(P.nt, i, sp)]
     IN IF nx = sp THEN sp ELSE PercNC(nx)
 PercStrictSpec(sp) ==
     LET r == PercNC(sp)
-    IN [i \in V(P.nt) |-> IF i \in NonConst /\ r[i] # 2 /\ ConstOn(P.nt, i, r) = r[i] THEN r[i] ELSE 2]
+    IN [i \in V(P.nt) |-> IF i \in NonConst \ Inputs /\ r[i] # 2 /\ ConstOn(P.nt, i, r) = r[i] THEN r[i] ELSE 2]
 \* percolation_conflicts: variables of the percolated (reported) space whose function is constant
 \* on it with the other value
 ConflictsOf(rep) == {i \in V(P.nt) : rep[i] # 2 /\ ConstOn(P.nt, i, rep) # 2 /\ ConstOn(P.nt, i, rep) # rep[i]}
